@@ -59,7 +59,8 @@ Qed.
 
 Example C12_example :
   crecv 2 0 (Some 1%nat) [IStanza KMsg 1; ISmR; IStanza KMsg 2]
-  = [ARouteAsync (IStanza KMsg 1); AWriteFail 3; AQuit; AErrCall; AEvDisconnected 3].
+  = [ARouteAsync (IStanza KMsg 1); AWriteFail 3; ARouteAsync ISmR; ARouteAsync (IStanza KMsg 2);
+     AQuit; AErrCall; AEvDisconnected 4].
 Proof. reflexivity. Qed.
 
 Print Assumptions C12_reported_once.
